@@ -132,16 +132,18 @@ def work(arg):
     p = zckref.parse(f)
     ext = zckref.extents(p)
     job = ["file %s" % f.hex()] + ["case mark=%s limit=%d noscan=%d feed=%d" % c[:4] + (" fsrc=%s" % fail_source(p, f, c[0]).hex() if "!" in c[0] else "")
-                                    + (" pmark=%s" % c[4] if len(c) > 4 else "") for c in cases]
+                                    + (" pmark=%s" % c[4] if len(c) > 4 and c[4] else "") + (" detached=1" if len(c) > 5 and c[5] else "") for c in cases]
     cs = core.drv("ranges", "\n".join(job) + "\n", timeout=3000)
     res = {"n": 0, "multi": 0, "viol": [], "outcomes": set(), "exact": 0}
     for c, cc in zip(cs, cases):
         mark, limit, noscan, feed = cc[:4]
         res["n"] += 1
         g = c.first("G")
-        case = {"name": name, "tier_gen": None if len(f) < 20000 else name, "file": f.hex() if len(f) < 20000 else None, "mark": mark, "limit": limit, "noscan": noscan, "feed": feed, "pmark": cc[4] if len(cc) > 4 else None}
+        case = {"name": name, "tier_gen": None if len(f) < 20000 else name, "file": f.hex() if len(f) < 20000 else None, "mark": mark, "limit": limit, "noscan": noscan, "feed": feed, "pmark": cc[4] if len(cc) > 4 else None, "detached": bool(len(cc) > 5 and cc[5])}
         klass = {"table": name.rstrip("0123456789+dict") if len(f) < 20000 else "large", "none_missing": "0" not in mark and not noscan,
                  "noscan": bool(noscan)}
+        if len(cc) > 5 and cc[5]:
+            klass["detached"] = True
         if not c.done or g is None:
             res["viol"].append((dict(klass, check="C10", predicate="crash-or-hang"), "%s mark=%s limit=%d: %s" % (name, mark[:40], limit, c.status()), case))
             continue
@@ -222,6 +224,13 @@ def run(ctx):
                 cases.append((mark, lim, 0, 1))
         for lim in LIMITS:
             cases.append(("0" * n, lim, 1, 1))
+        # the same table seen through its detached header: the scan concerns the dictionary only, every data chunk is missing
+        # (what a client that holds nothing but the header asks for first)
+        for dm in ("+0" if has_dict else "+"):
+            for lim in LIMITS:
+                cases.append((dm + "0" * (n - 1), lim, 0, 0, None, 1))
+        for lim in LIMITS:
+            cases.append(("0" * n, lim, 1, 0, None, 1))
         # a second request on the same context after the target changed on disk and was scanned again (every ordered pair of
         # markings of the smaller tables): nothing of the first request may survive into the second
         nd = n if has_dict else n - 1
@@ -274,5 +283,5 @@ def replay(case, quiet=True):
                 r = work((name, f, [(case["mark"], case["limit"], case["noscan"], case["feed"])]))
                 return {"violated": bool(r["viol"]), "detail": [v[1] for v in r["viol"]]}
         return {"violated": False, "detail": "unknown large table"}
-    r = work((case["name"], bytes.fromhex(case["file"]), [(case["mark"], case["limit"], case["noscan"], case["feed"]) + ((case["pmark"],) if case.get("pmark") else ())]))
+    r = work((case["name"], bytes.fromhex(case["file"]), [(case["mark"], case["limit"], case["noscan"], case["feed"]) + ((case["pmark"],) if case.get("pmark") else ((None, 1) if case.get("detached") else ()))]))
     return {"violated": bool(r["viol"]), "detail": [v[1] for v in r["viol"]]}
